@@ -107,6 +107,39 @@ Section C17.
     (fst (fst R), snd R) = run_periods num sub absf ltb isfin zero ev before after L d o ps s acc.
   Proof. exact (fun H1 H2 H3 => traced_run_periods_erase num sub absf ltb isfin zero cfg a reset ev before after H1 H2 H3 L d o ps s tr acc). Qed.
 
+  (* solve() with tracing on moves only the Traces of the periods it visits; the shape of the store, the number of
+     Trace objects and of periods stay; wherever trace_t could not fail before, it cannot fail afterwards (so a further
+     traced solve() with the same names is safe). *)
+  Theorem C17_solve_moves_only_visited_traces cfg a reset (L : Type) d o (ps : list (Z * L)) s (tr : traces num) acc ts :
+    shape_pres num ev -> shape_pres num before -> shape_pres num after ->
+    truthy a = true ->
+    (forall t, In t (map fst ps) -> ready num cfg a reset t (vals_of s) tr) ->
+    (forall t, In t ts -> ready num cfg a reset t (vals_of s) tr) ->
+    let R := traced_run_periods num sub absf ltb isfin zero cfg a reset ev before after L d o ps s tr acc in
+    let s' := fst (fst R) in let tr' := snd (fst R) in
+    shape num (vals_of s') = shape num (vals_of s) /\ length tr' = length tr /\ length (status s') = length (status s) /\
+    (forall t, In t ts -> ready num cfg a reset t (vals_of s') tr') /\
+    (forall q, (forall t, In t (map fst ps) -> py_pos (length tr) t <> Some q) ->
+               nth q tr' (empty_trace num) = nth q tr (empty_trace num)).
+  Proof. exact (fun H1 H2 H3 Ha => traced_run_periods_on num sub absf ltb isfin zero cfg a reset ev before after H1 H2 H3 L Ha d o ps s tr acc ts). Qed.
+
+  (* WITHIN a multi-period solve(): the Trace of a period visited once is exactly what that period's own traced solve_t
+     writes — from the Trace the period had before solve() was called and the instance (s1, tr1) as the earlier periods
+     left it; later periods do not touch it.  The facts listed for (s1, tr1) are the hypotheses of C17_trace_of_run /
+     C17_trace_shape_solved / C17_trace_shape_unsolved, which therefore describe every period's Trace after solve(). *)
+  Theorem C17_trace_of_period_within_solve cfg a reset (L : Type) d o (l1 l2 : list (Z * L)) t lab s (tr : traces num) acc p s1 tr1 acc1 :
+    shape_pres num ev -> shape_pres num before -> shape_pres num after ->
+    truthy a = true ->
+    (forall t', In t' (map fst (l1 ++ (t, lab) :: l2)) -> ready num cfg a reset t' (vals_of s) tr) ->
+    py_pos (length tr) t = Some p ->
+    (forall t', In t' (map fst l1 ++ map fst l2) -> py_pos (length tr) t' <> Some p) ->
+    traced_run_periods num sub absf ltb isfin zero cfg a reset ev before after L d o l1 s tr acc = ((s1, tr1), Ret acc1) ->
+    nth p tr1 (empty_trace num) = nth p tr (empty_trace num) /\
+    ready num cfg a reset t (vals_of s1) tr1 /\ length tr1 = length tr /\ length (status s1) = length (status s) /\
+    nth p (snd (fst (traced_run_periods num sub absf ltb isfin zero cfg a reset ev before after L d o (l1 ++ (t, lab) :: l2) s tr acc))) (empty_trace num)
+    = nth p (snd (fst (traced_solve_t cfg a reset ev before after d o t s1 tr1))) (empty_trace num).
+  Proof. exact (fun H1 H2 H3 Ha => trace_of_period_within_solve num sub absf ltb isfin zero cfg a reset ev before after H1 H2 H3 L Ha d o l1 l2 t lab s tr acc p s1 tr1 acc1). Qed.
+
   (* solve() that rejects its arguments (min_iter > max_iter, unknown start / end label, empty span, lags / leads
      beyond the span) or has no period to solve: no value, status, iteration count or Trace changes *)
   Theorem C17_traced_solve_no_targets cfg a reset (L : Type) (locate : L -> locres) d o span start end_ s (tr : traces num) :
@@ -316,6 +349,8 @@ Print Assumptions C17_trace_noninterference_solve_period.
 Print Assumptions C17_trace_noninterference_solve.
 Print Assumptions C17_trace_off_solve_writes_nothing.
 Print Assumptions C17_trace_noninterference_run_periods.
+Print Assumptions C17_solve_moves_only_visited_traces.
+Print Assumptions C17_trace_of_period_within_solve.
 Print Assumptions C17_traced_solve_no_targets.
 Print Assumptions C17_trace_accumulates.
 Print Assumptions C17_trace_names_after_run.
